@@ -650,6 +650,13 @@ class _Flattener:
       r = repo.resolve_dotted(info.module, dotted(fn))
       if r and r[0] == 'func' and r[1].cls is None:
         return r[1], None
+      if r and r[0] == 'func' and r[1].kind == 'static' and r[1].cls is not None:
+        # SomeClass.static_helper(...): the receiver names the class itself (not a local variable of that name)
+        rc = repo.resolve_dotted(info.module, fn.value.id)
+        local = any(isinstance(x, ast.Name) and x.id == fn.value.id and isinstance(x.ctx, ast.Store) for x in ast.walk(info.node)) \
+            or fn.value.id in info.params
+        if rc and rc[0] == 'class' and rc[1] is r[1].cls and not local:
+          return r[1], None
     return None, None
 
   def flatten(self, f):
